@@ -432,6 +432,30 @@ func (bc *boundsCtx) defFacts(f *factSet, roots []ssa.Value) {
 		case *ssa.BinOp:
 			visit(x.X, depth+1)
 			visit(x.Y, depth+1)
+			// t = i + len(sub) with i = strings.Index(s, sub) and the very same sub: the position right behind
+			// the match. t >= i, and once i >= 0 is established (a dominating test) t <= len(s)
+			if x.Op == token.ADD {
+				for _, pr := range [][2]ssa.Value{{x.X, x.Y}, {x.Y, x.X}} {
+					ic, ok1 := pr[0].(*ssa.Call)
+					lc, ok2 := pr[1].(*ssa.Call)
+					if !ok1 || !ok2 || calleeName(&lc.Call) != "builtin.len" || len(ic.Call.Args) != 2 || len(lc.Call.Args) != 1 {
+						continue
+					}
+					if n := calleeName(&ic.Call); n != "strings.Index" && n != "bytes.Index" {
+						continue
+					}
+					if ic.Call.Args[1] != lc.Call.Args[0] {
+						continue
+					}
+					t, i := bc.key(x), bc.key(ic)
+					f.le(i, 0, t, 0, 0) // i <= t (len >= 0)
+					if boundOf(f, "", i) <= 0 {
+						sl, so := bc.lenTerm(ic.Call.Args[0])
+						lenNonNeg(ic.Call.Args[0])
+						f.le(t, 0, sl, so, 0) // t <= len(s)
+					}
+				}
+			}
 			if _, isC := constInt(x.Y); !isC && x.Op == token.SUB {
 				// t = a - b with two symbolic operands: t <= a - lb(b) ; t >= -(ub of b-a)
 				t := bc.key(x)
